@@ -26,7 +26,9 @@ KeysOK(S) == LET io == InOrder(S, 0) IN
              /\ \A i \in 1..Len(io) : mv'[Cls[io[i]]] # Absent
              /\ \A i \in 1..(Len(io) - 1) : Cls[io[i]] < Cls[io[i + 1]]
 \* ... and a lookup makes at most CmpPerLevel comparator calls per level
-CmpOK == "cmps" \in DOMAIN Ev => Ev.cmps <= Ev.cmp_per_level * (IF Ev.depth = 0 THEN 1 ELSE Ev.depth)
+CmpOK == "cmps" \in DOMAIN Ev =>
+           /\ Ev.cmps <= Ev.cmp_per_level * (IF Ev.depth = 0 THEN 1 ELSE Ev.depth)
+           /\ \A i \in 1..Len(Ev.cmplv) : Ev.cmplv[i] <= Ev.cmp_per_level        \* per level (calls attributed through the logged shape)
 StructOK == "shape" \in DOMAIN Ev => ShapeOK(Ev.shape) /\ KeysOK(Ev.shape)
 TNext == /\ l <= Len(Trace) /\ l' = l + 1 /\ op' = op
          /\ (Reset \/ (Call /\ StructOK /\ CmpOK))
